@@ -134,17 +134,23 @@ func vConcretisation(variant int) *vConc {
 		c.addr["X1"] = net.ParseIP("2001:db8::1")
 		c.meta["m1"] = []byte(strings.Repeat("M", 512))
 		c.incMap = func(i int64) uint32 { return uint32(i) << 20 }
-	case 2: // IPv4-mapped IPv6 for the second address, incarnations near the top of the range
+	case 2: // IPv4-mapped IPv6 for the second address, incarnations far apart and near the top of the range
 		c.name = "mapped-high"
 		c.exact = false
 		c.addr["A2"] = net.ParseIP("10.0.0.2").To16()
 		c.addr["X1"] = net.ParseIP("192.168.1.1").To16()
 		c.meta["m0"] = []byte{0}
+		// neighbouring abstract incarnations are more than 2^31 apart, the largest sits just below the top
 		c.incMap = func(i int64) uint32 {
-			if i == 0 {
+			switch {
+			case i <= 0:
 				return 0
+			case i == 1:
+				return 5
+			case i == 2:
+				return 1<<31 + 9
 			}
-			return uint32(4294967295 - 64 + i*8)
+			return uint32(4294967295 - 2 - 8*(3-min(i, 3)))
 		}
 	}
 	return c
